@@ -126,6 +126,104 @@ def main():
             bad += 1
             print("MISMATCH list slice", vals, (a, b, st), "CPython:", want)
     print(f"list[a:b:step]: {cases} cases, {bad - bad0} mismatches")
+    bad0 = bad
+    # fourth session: bisect.bisect_left / bisect_right with lo / hi, range objects indexed / sliced, divmod, operator.index
+    import bisect
+
+    from pyvc import models as M
+
+    for c in range(cases):
+        vals = sorted(rng.randint(-4, 6) for _ in range(rng.randint(0, 7)))
+        n = len(vals)
+        side = rng.choice(["left", "right"])
+        lo = rng.choice([None, rng.randint(0, n + 1)])
+        hi = rng.choice([None, rng.randint(0, n)])
+        x = rng.randint(-5, 8)
+        real = {"left": bisect.bisect_left, "right": bisect.bisect_right}[side]
+        want = real(vals, x, 0 if lo is None else lo, n if hi is None else hi)
+        E = engine()
+        a = sym_array(E, vals, "a")
+        v = fresh("int", "v")
+        E.assume(v.z == x)
+        args = [a, v] + ([] if lo is None and hi is None else [0 if lo is None else lo] + ([] if hi is None else [hi]))
+        n0 = len(E.obligs)
+        got = X._bisect(side)(E, args, {})
+        obs = E.obligs[n0:]
+        if len(obs) != 1 or not holds(obs[0].hyps, obs[0].goal):
+            bad += 1
+            print("MISMATCH: bisect obligation not provable on an ascending list", vals, lo, hi)
+        s = z3.Solver()
+        s.add(*E.pc)
+        s.push()
+        s.add(got.z == want)
+        ok1 = s.check() == z3.sat
+        s.pop()
+        s.add(got.z != want)
+        ok2 = s.check() == z3.unsat
+        if not (ok1 and ok2):
+            bad += 1
+            print("MISMATCH bisect", vals, x, side, lo, hi, "CPython:", want, "admits:", ok1, "unique:", ok2)
+    print(f"bisect: {cases} cases, {bad - bad0} mismatches")
+    bad0 = bad
+    for c in range(cases):
+        lo, hi, st = rng.randint(-3, 4), rng.randint(-3, 8), rng.choice([1, 1, 2, 3, -1, -2])
+        r = range(lo, hi, st)
+        E = engine()
+        E.spec_mode = True  # (value only: the IndexError branch of an out-of-range index is exercised by the hunt rewrites)
+        sl, sh = fresh("int", "lo"), fresh("int", "hi")
+        E.assume(sl.z == lo)
+        E.assume(sh.z == hi)
+        R = M._SymRange(sl, sh, st)
+        if len(r) and rng.random() < 0.5:
+            i = rng.randint(0, len(r) - 1)  # (negative / out-of-range indices are program branches: `_get_idx` rewritten as `range(length)[key]` is proved against its contract)
+            iv = fresh("int", "i")
+            E.assume(iv.z == i)
+            got = M.getitem(E, R, iv)
+            s = z3.Solver()
+            s.add(*E.pc)
+            s.add(got.z != r[i])
+            if s.check() != z3.unsat:
+                bad += 1
+                print("MISMATCH range index", r, i)
+        else:
+            n = len(r)
+            pick = lambda: rng.choice([None, rng.randint(-n - 2, n + 2)])
+            a, b, c2 = pick(), pick(), rng.choice([None, 1, 2, -1, -2])
+            want = list(r[a:b:c2])
+
+            def sym(x, nm):
+                if x is None:
+                    return None
+                v = fresh("int", nm)
+                E.assume(v.z == x)
+                return v
+
+            got = M.getitem(E, R, slice(sym(a, "a"), sym(b, "b"), c2))
+            gn, gg = M.as_sequence(E, got)
+            from pyvc.values import Sym, zint
+
+            s = z3.Solver()
+            s.add(*E.pc)
+            s.add(z3.Or(zint(gn) != len(want), *[gg(Sym(z3.IntVal(i), "int")).z != x for i, x in enumerate(want)]))
+            if s.check() != z3.unsat:
+                bad += 1
+                print("MISMATCH range slice", r, (a, b, c2), "CPython:", want)
+    print(f"range[i] / range[a:b:c]: {cases} cases, {bad - bad0} mismatches")
+    bad0 = bad
+    for c in range(cases):
+        a, b = rng.randint(-9, 9), rng.choice([-4, -3, -1, 1, 2, 3, 5])
+        E = engine()
+        av, bv = fresh("int", "a"), fresh("int", "b")
+        E.assume(av.z == a)
+        E.assume(bv.z == b)
+        q, r = X._b_divmod(E, [av, bv], {})
+        s = z3.Solver()
+        s.add(*E.pc)
+        s.add(z3.Or(q.z != divmod(a, b)[0], r.z != divmod(a, b)[1]))
+        if s.check() != z3.unsat:
+            bad += 1
+            print("MISMATCH divmod", a, b)
+    print(f"divmod: {cases} cases, {bad - bad0} mismatches")
     return 1 if bad else 0
 
 
